@@ -463,6 +463,15 @@ func runC04(c *fw.Ctx) {
 	for _, k := range sn {
 		inputs = append(inputs, input{"snippet:" + k, []byte(snips[k])})
 	}
+	zoo := layoutZoo()
+	var zn []string
+	for k := range zoo {
+		zn = append(zn, k)
+	}
+	sort.Strings(zn)
+	for _, k := range zn {
+		inputs = append(inputs, input{"zoo:" + k, []byte(zoo[k])})
+	}
 	if b := readFile(repoDir()+"/gendst/data/positions.go"); b != nil {
 		inputs = append(inputs, input{"repo:gendst/data/positions.go", b})
 	}
